@@ -1239,6 +1239,30 @@ impl TypeChecker {
         }
     }
 
+    /// Whether the type variable `var` occurs anywhere in `ty`
+    ///
+    /// Binding a type variable to a type that contains that same variable
+    /// would create an infinite type.
+    fn occurs(&mut self, var: usize, ty: &Type) -> bool {
+        match self.resolve_type(ty) {
+            Type::Var(x) | Type::IntVar(x, _) | Type::FloatVar(x) => x == var,
+            Type::RecordVar(x, fields) => {
+                x == var || fields.iter().any(|(_, t)| self.occurs(var, t))
+            }
+            Type::Record(fields) => {
+                fields.iter().any(|(_, t)| self.occurs(var, t))
+            }
+            Type::Function(params, ret) => {
+                params.iter().any(|t| self.occurs(var, t))
+                    || self.occurs(var, &ret)
+            }
+            Type::Name(name) => {
+                name.arguments.iter().any(|t| self.occurs(var, t))
+            }
+            Type::Unit | Type::Never | Type::ExplicitVar(_) => false,
+        }
+    }
+
     fn unify_inner(&mut self, a: &Type, b: &Type) -> Option<Type> {
         use Type::*;
         let a = self.resolve_type(a);
@@ -1301,10 +1325,16 @@ impl TypeChecker {
                 Name(name)
             }
             (Var(a), b) => {
+                if self.occurs(a, &b) {
+                    return None;
+                }
                 self.type_info.unionfind.set(a, b.clone());
                 b.clone()
             }
             (a, Var(b)) => {
+                if self.occurs(b, &a) {
+                    return None;
+                }
                 self.type_info.unionfind.set(b, a.clone());
                 a.clone()
             }
